@@ -110,13 +110,20 @@ def r2(ctx):
                 "tick; Sim::run returns Ok(()) only behind is_finished == true or the no-client test")
     b = ctx.body(R, STEP)
     if b:
-        okr = [s for bb, i, s in b.all_stmts() if s["p"]["l"] == 0 and s["r"]["k"] == "agg" and s["r"].get("variant") == "Ok"]
+        okr = [s for bb, s in ret_aggs(b, "Ok")]
         fin = None
         if okr:
             fin = op_base(okr[0]["r"]["ops"][0])
             o = origin(b, okr[0]["r"]["ops"][0])
             if o["k"] == "place":
                 fin = o["p"]["l"]
+        if fin is None or not b.defs().get(fin):
+            # `if is_finished { return Ok(true) } .. Ok(false)`: the results are constants, the flag is the local whose test guards Ok(true)
+            fin = None
+            okt = [bb for bb, s in ret_aggs(b, "Ok") if s["r"].get("ops") and (op_const(s["r"]["ops"][0]) or {}).get("v") == 1]
+            for s2, te2, fe2, o2 in guards_on(b, lambda o: o["k"] == "place" and not o["p"].get("p")):
+                if okt and te2 and all(b.dominated_by_any(x, edges=te2) for x in okt) and b.defs().get(o2["p"]["l"]):
+                    fin = o2["p"]["l"]
         te, fe = call_guard_edges(b, "turmoil::rt::Rt::is_client")
         if fin is None:
             ctx.bad(R, "step:is_finished", b.span, "cannot identify the completion flag returned by step")
